@@ -47,6 +47,17 @@ def run(tier):
     for src in c09.JUMPY:
         for body in (src, "{% block k %}" + src + "{% endblock %}", "{% component C() %}" + src + "{% endcomponent C %}{{<C/>}}"):
             jumpy.append({"tpls": [["j.html", body]], "cfg": {"probes": True}, "src": body, "entry": "j.html", "ctx": {}})
+    # jumps out of a capture: the parser refuses break/continue that would leave a set block / filter section / component
+    # body, because the jump would skip the instruction closing the capture.  Whatever of these IS accepted gets rendered
+    # and traced: BalancedAtLeave decides (capture stack empty at every frame exit).
+    for cap_o, cap_c in (("{% set v %}", "{% endset %}{{ v }}"), ("{% filter upper %}", "{% endfilter %}"), ("{% <W> %}", "{% </W> %}"), ("{% set_global g %}", "{% endset %}")):
+        for jump in ("break", "continue"):
+            for inner in ("{%% %s %%}" % jump, "{%% if i %%}{%% %s %%}{%% endif %%}" % jump, "{%% if i %%}a{%% else %%}{%% %s %%}{%% endif %%}" % jump,
+                          "{%% if i %%}{%% if i %%}{%% %s %%}{%% endif %%}{%% endif %%}" % jump,
+                          "{%% for k in [1] %%}{%% %s %%}{%% endfor %%}" % jump,                         # legal: the loop is inside the capture
+                          "{%% for k in [1] %%}x{%% endfor %%}{%% if i %%}{%% %s %%}{%% endif %%}" % jump):
+                src = "{% component W() %}{{ body }}{% endcomponent W %}{% for i in [1, 0, 2] %}b" + cap_o + "c" + inner + "d" + cap_c + "e{% endfor %}|after"
+                jumpy.append({"tpls": [["j.html", src]], "cfg": {"probes": True}, "src": src, "entry": "j.html", "ctx": {}})
     allc = snap + jumpy
     # ---- MC on real listings (post and pre optimisation)
     post = vp.run_jobs(corpus.listing_jobs(allc, True), tag="c07-lst")
